@@ -25,6 +25,9 @@ SPECS["C18"] = {
         {"name": "H3-separation-and-error-position", "pkg": "parser", "files": ["parser/c18.go"], "fn": "VerifC18Separation",
          "what": "two statements separated by 12 comment/whitespace arrangements; planted offending token after a second arrangement", "reach": ["parsed"],
          "quick": {"unwind": 40, "wall_s": 600}, "thorough": {"unwind": 40, "wall_s": 600}},
+        {"name": "H3-separation-values", "pkg": "parser", "files": ["parser/c18.go"], "fn": "VerifC18Separation",
+         "what": "same with the first statement's value ranging over 8 literals (quoted strings, raw strings spanning lines, backslash at the end of a line inside a raw string); every token position checked", "reach": ["parsed"],
+         "quick": {"params": {"VALUES": 1}, "unwind": 60, "wall_s": 900}, "thorough": {"params": {"VALUES": 1}, "unwind": 60, "wall_s": 900}},
     ],
     "assumptions": ["ASCII bytes (<0x80)"],
     "outside": ["inputs longer than the stated byte bound"],
@@ -91,6 +94,11 @@ SPECS["C14"] = {
          "quick": {"params": {"K": k}, "unwind": 30, "wall_s": 600, "max_steps": 3000000} if k <= 3 else None,
          "thorough": {"params": {"K": k}, "unwind": 30, "wall_s": 3000, "max_steps": 3000000}}
         for k in (2, 3, 4)
+    ]
+    + [
+        {"name": "H3-nested", "pkg": "interpreter", "files": ["interpreter/c14.go", "interpreter/c07.go", "interpreter/common.go"], "fn": "VerifC14Nested",
+         "what": "a literal whose groups evaluate the same literal again (recursive function, depth 0..3) and other literals", "reach": ["before-eval", "after-eval"],
+         "quick": {"params": {"DEPTH": 3}, "unwind": 60, "wall_s": 600, "max_steps": 5000000}, "thorough": {"params": {"DEPTH": 4}, "unwind": 60, "wall_s": 1500, "max_steps": 20000000}},
     ],
     "assumptions": ["alphabet {'{','}','a'}", "variable a bound to the string \"{{a}}\""],
     "outside": ["longer literals", "other bytes / escape sequences (lexer-level unquoting is covered under C08/C18 harnesses)"],
